@@ -560,6 +560,7 @@ impl Star {
             self.emit(&ev, ctx, out);
             if kind.reliable() {
                 self.sim.outstanding[*k][DOWN as usize][ch as usize] += Sim::rounded(len);
+                self.sim.outstanding_n[*k][DOWN as usize][ch as usize] += 1;
             }
             *self.down_count.entry((*k, ch)).or_insert(0) += 1;
         }
@@ -599,6 +600,7 @@ impl Star {
         sim.cfg.link_down.push(ld);
         sim.next_idx.push([vec![0u64; 256], vec![0u64; 256]]);
         sim.outstanding.push([vec![0usize; 256], vec![0usize; 256]]);
+        sim.outstanding_n.push([vec![0usize; 256], vec![0usize; 256]]);
         sim.cfg.n_clients += 1;
         let n = sim.cfg.n_clients;
         sim.log(format!("t{} JOIN conn {} id {}", sim.tick, n - 1, id));
